@@ -306,62 +306,78 @@ def from_json_case(c):
 
 
 # ---------------------------------------------------------------------------- script mode in full runs
-def pipeline_script_case(rep, cseed, sb, tag):
+def pipeline_script_case(rep, cseed, sb, tag, force_broken=False):
     """Histories of runs with `clean` on and `_autoclean 0` (the tool only writes var/clean.sh); the
-    operator runs the script after some runs, always after the last (fault-free) one.  The script must
-    never delete a file the published metadata needs, and after it the mirror must equal a fresh
-    auto-cleaned mirror of the same upstream."""
+    operator runs the script after some runs, always after the last one.  The script must never delete a
+    file the published metadata needs, and after it every repository that the last run mirrored
+    successfully must equal a fresh auto-cleaned mirror of the same upstream.  Some histories contain a
+    repository that never works (its release files always answer 5xx): automatic cleaning would still
+    clean the others."""
     from . import pipeline as P
     from . import runs as R
     found = False
     rng = random.Random(cseed)
-    scn0 = P.gen_scenario(rng, nrepos=rng.choice([1, 1, 2]))
+    scn0 = P.gen_scenario(rng, nrepos=2 if force_broken else rng.choice([1, 1, 2, 2]))
     scn0.autoclean = False
     base = sb / tag
     cur = scn0
     history = []
+    broken = None
+    if force_broken:
+        broken = scn0.repos[0]["url"]
+    elif len(scn0.repos) == 2 and rng.random() < 0.4:
+        broken = scn0.repos[rng.randrange(2)]["url"]
+
+    def with_broken(plan, files):
+        plan = dict(plan)
+        if broken:
+            plan[broken] = {p: {"first": [], "rest": "error"} for p in files[broken]
+                            if p.rsplit("/", 1)[-1] in ("InRelease", "Release", "Release.gpg") and p.count("/") == 2}
+        return plan
 
     def run_script():
         script = base / "var" / "clean.sh"
         if not script.exists():
             return None
-        p = subprocess.run(["/bin/sh", str(script)], cwd=str(base), stdout=subprocess.PIPE, stderr=subprocess.PIPE, timeout=120)
-        return p
+        return subprocess.run(["/bin/sh", str(script)], cwd=str(base), stdout=subprocess.PIPE, stderr=subprocess.PIPE, timeout=120)
 
     steps = rng.randint(1, 3)
-    last_ok = None
+    last_ok = {}
     # flip-flop histories: the upstream returns to an earlier state (a removed package comes back under
     # its old, immutable pool path), so a file that was stale two runs ago is needed again
-    flipflop = rng.random() < 0.4
+    flipflop = rng.random() < 0.4 and not force_broken
     first_repos = json.loads(json.dumps(scn0.repos))
     if flipflop:
         steps = 2
+    jc = {}
     for i in range(steps + 1):
         files = R.files_of(cur)
         final = i == steps
         mode = "clean" if final or flipflop else rng.choice(["clean", "clean", "faulty"])
         plan = R.gen_fault_plan(rng, cur, files, density=2) if mode == "faulty" else {}
-        res = R.run_observed(cur, base, plan=plan, files_by_url=files)
+        res = R.run_observed(cur, base, plan=with_broken(plan, files), files_by_url=files)
         ran = final or (rng.random() < 0.4 and not flipflop)
         history.append((mode, res.code, ran))
-        jc = {"scenario": {"repos": scn0.repos, "nthreads": scn0.nthreads}, "history": history, "cseed": cseed}
-        if res.code == 0:
-            last_ok = cur
+        jc = {"scenario": {"repos": scn0.repos, "nthreads": scn0.nthreads}, "history": history, "cseed": cseed,
+              "broken_repository": broken, "force_broken": force_broken}
+        for r in cur.repos:
+            if res.results.get(r["url"]) is True:
+                last_ok[r["url"]] = r
         if ran:
-            p = run_script()
-            if p is not None and p.returncode != 0:
+            run_script()
+            probs = P.fsck(P.Scenario(list(last_ok.values())), base) if last_ok else []
+            if probs:
                 found = True
-                rep.violation(f"var/clean.sh fails (rc={p.returncode}, {p.stderr[-150:]!r}) after history {history}",
-                              {"kind": "oracle", "tie": "pipeline_script", "case": jc}, tags={"oracle": "script_rc"})
-            if last_ok is not None:
-                probs = P.fsck(P.Scenario(last_ok.repos), base)
-                if probs:
-                    found = True
-                    rep.violation(f"after running var/clean.sh the published mirror misses needed files: {probs[:2]} "
-                                  f"(history {history})",
-                                  {"kind": "oracle", "tie": "pipeline_script", "case": jc}, tags={"oracle": "script_deletes_needed"})
-                    break
+                rep.violation(f"after running var/clean.sh the published mirror misses needed files: {probs[:2]} "
+                              f"(history {history})",
+                              {"kind": "oracle", "tie": "pipeline_script", "case": jc}, tags={"oracle": "script_deletes_needed"})
+                break
         if final:
+            good = [r for r in cur.repos if r["url"] != broken]
+            if any(res.results.get(r["url"]) is not True for r in good):
+                found = True
+                rep.violation(f"fault-free run fails for a working repository ({res.results}) after history {history}",
+                              {"kind": "oracle", "tie": "pipeline_script", "case": jc}, tags={"oracle": "final_exit"})
             break
         if flipflop and i == 1:
             back = json.loads(json.dumps(first_repos))
@@ -373,27 +389,25 @@ def pipeline_script_case(rep, cseed, sb, tag):
             continue
         cur = P.Scenario([dict(r, version=P.gen_version(rng, serial=r["version"]["serial"] + 1, prev=r["version"]))
                           for r in cur.repos], nthreads=cur.nthreads, autoclean=False)
-    rep.case(("pscript", tuple((m, c, r) for m, c, r in history)), sample={"history": history})
+    rep.case(("pscript", tuple((m, c, r) for m, c, r in history), broken is not None), sample={"history": history, "broken": broken})
     rep.count("pipeline_script")
-    if not found and history[-1][1] == 0:
+    if not found:
         fresh = sb / f"{tag}_fresh"
         ref = P.Scenario(cur.repos, nthreads=cur.nthreads, autoclean=True)
-        fr = R.run_observed(ref, fresh, files_by_url=R.files_of(cur))
-        if fr.code == 0:
-            for r in cur.repos:
-                got = {k: v[:3] for k, v in P.tree_listing(base / "mirror" / P.repo_dir(r["url"])).items()}
-                want = {k: v[:3] for k, v in P.tree_listing(fresh / "mirror" / P.repo_dir(r["url"])).items()}
-                if got != want:
-                    found = True
-                    rep.violation(f"after var/clean.sh the mirror of {r['url']} differs from an auto-cleaned fresh mirror: "
-                                  f"stale {sorted(set(got) - set(want))[:3]}, missing {sorted(set(want) - set(got))[:3]} "
-                                  f"(history {history})",
-                                  {"kind": "oracle", "tie": "pipeline_script", "case": jc}, tags={"oracle": "script_equals_auto"})
+        files = R.files_of(cur)
+        R.run_observed(ref, fresh, plan=with_broken({}, files), files_by_url=files)
+        for r in cur.repos:
+            if r["url"] == broken:
+                continue
+            got = {k: v[:3] for k, v in P.tree_listing(base / "mirror" / P.repo_dir(r["url"])).items()}
+            want = {k: v[:3] for k, v in P.tree_listing(fresh / "mirror" / P.repo_dir(r["url"])).items()}
+            if got != want:
+                found = True
+                rep.violation(f"after var/clean.sh the mirror of {r['url']} differs from what automatic cleaning leaves: "
+                              f"stale {sorted(set(got) - set(want))[:3]}, missing {sorted(set(want) - set(got))[:3]} "
+                              f"(history {history}, never-working repository: {broken})",
+                              {"kind": "oracle", "tie": "pipeline_script", "case": jc}, tags={"oracle": "script_equals_auto"})
         shutil.rmtree(fresh, ignore_errors=True)
-    elif history[-1][1] != 0:
-        found = True
-        rep.violation(f"fault-free run exits {history[-1][1]} after history {history}",
-                      {"kind": "oracle", "tie": "pipeline_script", "case": jc}, tags={"oracle": "final_exit"})
     shutil.rmtree(base, ignore_errors=True)
     return found
 
@@ -432,7 +446,7 @@ def run(rep: C.Report):
                 rows[k].append((to_json_case(v[0]), v[1], v[2]))
         prng = random.Random(rep.seed + 404)
         for i in range(14 if rep.tier == "quick" else 500):
-            found |= pipeline_script_case(rep, prng.getrandbits(32), sb, f"ps{i}")
+            found |= pipeline_script_case(rep, prng.getrandbits(32), sb, f"ps{i}", force_broken=(i % 4 == 0))
     finally:
         shutil.rmtree(sb, ignore_errors=True)
     header = HEADER + COQ_DEFS
@@ -449,7 +463,7 @@ def replay(rep: C.Report, path: str):
     sb = Path(os.path.realpath(tempfile.mkdtemp(prefix="vsb_c04_")))
     try:
         if "cseed" in j["case"]:
-            pipeline_script_case(rep, j["case"]["cseed"], sb, "replay")
+            pipeline_script_case(rep, j["case"]["cseed"], sb, "replay", force_broken=j["case"].get("force_broken", False))
         else:
             r, f = run_case(rep, from_json_case(j["case"]), sb)
         print("replayed; violations", rep.violations)
